@@ -2,7 +2,9 @@
 
 Implementation side: `FGConfigProvider.get_tree` / `build_config_tree_from_list` run in *fresh
 interpreter subprocesses* (harness/worker_seed.py) under several PYTHONHASHSEED values, on
-permutations of the default list and of generated lists of connected patterns.
+permutations of the default list (31 groups in the code under verification) and of generated lists of connected
+patterns, anti-pattern free AND with anti-patterns that really exclude would-be descendants (corpus + generator
+`gen_anti_list`; the expected relation is the oracle's: true embedding order with the anti-pattern veto).
 Observable: the set of (parent, child) links and the set of roots.
 Compared with (i) the Lean model (`C07.buildTreeE` over the matcher model) and (ii) the Hasse diagram
 of the TRUE embedding order (`C07.specCheck`, embeddings enumerated in Lean; cross-checked against
@@ -22,7 +24,7 @@ import common
 from common import Atom, Case, Run, ImplError, prepare, enc_graph, enc_mapper
 
 PROOFS = ["FGVerif.Proofs.C07", "FGVerif.Proofs.C07Default", "FGVerif.Proofs.C07Key", "FGVerif.Proofs.C07Bridge",
-          "FGVerif.Proofs.C07Strings", "FGVerif.Proofs.C07KeyGraph", "FGVerif.Proofs.C07Embeds"]
+          "FGVerif.Proofs.C07Strings", "FGVerif.Proofs.C07KeyGraph", "FGVerif.Proofs.C07Embeds", "FGVerif.Proofs.C07Anti"]
 WORKER = os.path.join(os.path.dirname(os.path.abspath(__file__)), "worker_seed.py")
 MAPPER = enc_mapper("R", True, [])
 
@@ -335,6 +337,105 @@ def gen_disconnected(rng):
 
 
 # ---------------------------------------------------------------------------
+# lists WITH anti-patterns (the veto clause of the statement; beyond the "anti-pattern free" quantifier text,
+# tested because the clause is part of the statement)
+# ---------------------------------------------------------------------------
+# (parent pattern, anti-patterns of the parent, candidate other entries): families in which the veto really
+# removes would-be descendants
+ANTI_FAMILIES = [
+    ("CO", ["COC"], ["COC", "COCC", "COH", "CCOH", "C(C)OC", "CCOCC", "COO", "C", "O"]),
+    ("C=O", ["OC=O"], ["CC(=O)C", "RC(=O)OR", "RC(=O)OH", "CC=O", "RC(=O)H", "NC=O", "CC(=O)OC", "RC(=O)Cl", "C(=O)OO"]),
+    ("C(=O)", ["C(=O)O", "C(=O)N"], ["RC(=O)N(R)R", "RC(=O)OR", "CC(=O)C", "RC(=O)H", "RC(=O)SR", "ROC(=O)N(R)R"]),
+    ("RN(R)R", ["NC=O", "N=O"], ["RC(=O)N(R)R", "CN(C)C", "RN=O", "C:CN(R)R", "RN(=O)O", "CNC"]),
+    ("COH", ["CC(O)O"], ["CCOH", "CC(O)OH", "CC(C)OH", "CC(OH)OH", "C(C)(C)(C)OH", "C=COH", "RC(OC)(OH)H"]),
+    ("CC", ["CCC"], ["CCC", "CCO", "CCCO", "C=CC", "CCN", "CC(C)C", "C"]),
+    ("ROR", ["C(=O)O", "OO"], ["RC(=O)OR", "COC", "ROOR", "RC(=O)OC(=O)R", "CCOCC", "RC(OC)(OC)H"]),
+    ("c:c", ["cO"], ["c1ccccc1", "c1ccccc1O", "C:COH", "c1ccccc1N", "c:cC"]),
+]
+
+
+def graph_to_se(g):
+    """parsed pattern (nodes 0..n-1) -> (syms, edges) as the generators use them"""
+    nodes = list(g.nodes)
+    idx = {x: i for i, x in enumerate(nodes)}
+    syms = [g.nodes[x]["symbol"] for x in nodes]
+    edges = {}
+    for u, v, d in g.edges(data=True):
+        a, b = idx[u], idx[v]
+        edges[(min(a, b), max(a, b))] = d["bond"]
+    return syms, edges
+
+
+def gen_anti_list(rng):
+    """-> (list of config dicts with `anti_pattern` on at least one entry, tags).  Whether the veto is effective and
+    whether the resulting relation is still a strict order is decided afterwards by the oracle (ListInfo)."""
+    tags = {"anti-patterns"}
+    if rng.random() < 0.45:
+        parent, anti, others = rng.choice(ANTI_FAMILIES)
+        k = rng.randint(2, min(6, len(others)))
+        pats = [parent] + rng.sample(others, k)
+        antis = {0: list(anti) if rng.random() < 0.7 else [rng.choice(anti)]}
+        if rng.random() < 0.3:        # a second carrier taken from another family
+            p2, a2, o2 = rng.choice(ANTI_FAMILIES)
+            if p2 not in pats:
+                pats.append(p2)
+                antis[len(pats) - 1] = [rng.choice(a2)]
+                for x in rng.sample(o2, 2):
+                    if x not in pats:
+                        pats.append(x)
+        tags.add("anti:family")
+    else:
+        pats, t = gen_list(rng)
+        tags |= set(t)
+        parsed = [_PARSER().parse(x) for x in pats]
+        n = len(pats)
+        desc = {i: [j for j in range(n) if j != i and true_embeds(parsed[i], parsed[j]) and not true_embeds(parsed[j], parsed[i])]
+                for i in range(n)}
+        carriers = [i for i in range(n) if desc[i]]
+        antis = {}
+        if not carriers:
+            # no comparable pair: the anti-pattern loop is never reached for a would-be descendant
+            i = rng.randrange(n)
+            antis[i] = [pats[rng.randrange(n)]]
+            tags.add("anti:no-comparable-pair")
+        for i in rng.sample(carriers, min(len(carriers), rng.choice([1, 1, 2]))):
+            j = rng.choice(desc[i])
+            se = graph_to_se(parsed[j])
+            cands = []
+            x = rng.random()
+            if x < 0.35:
+                cands.append(pats[j])                       # exactly the descendant
+            else:
+                for _ in range(6):                          # a connected piece of the descendant
+                    sub = sub_graph(rng, *se)
+                    if len(sub[0]) >= 2:
+                        w = write_pattern(rng, sub[0], sub[1], explicit=rng.choice([0.0, 0.3]))
+                        if w:
+                            cands.append(w)
+                            break
+                if not cands:
+                    cands.append(pats[j])
+            if rng.random() < 0.3:                          # plus one that (most likely) matches nothing here
+                g2 = gen_graph(rng, rng.randint(2, 4), "tree")
+                w = write_pattern(rng, g2[0], g2[1], explicit=0.0)
+                if w:
+                    cands.insert(rng.randrange(len(cands) + 1), w)
+            antis[i] = cands
+        tags.add("anti:derived-from-descendant")
+    dicts = []
+    for i, p in enumerate(pats):
+        d = {"name": "g%d" % i, "pattern": p}
+        if i in antis:
+            a = antis[i]
+            d["anti_pattern"] = a[0] if len(a) == 1 and rng.random() < 0.3 else list(a)   # a plain string is accepted too
+        dicts.append(d)
+    order = list(range(len(dicts)))
+    rng.shuffle(order)
+    dicts = [dict(dicts[i], name="g%d" % k) for k, i in enumerate(order)]
+    return dicts, tags
+
+
+# ---------------------------------------------------------------------------
 # oracle: true embedding order by enumeration (independent of fgutils' matcher and of Lean)
 # ---------------------------------------------------------------------------
 def sym_ok(ps, hs):
@@ -409,6 +510,17 @@ class ListInfo:
         self.cover = sorted([i, j] for i in range(n) for j in range(n)
                             if lt[i][j] and not any(lt[i][z] and lt[z][j] for z in range(n)))
         self.minimal = [j for j in range(n) if not any(lt[i][j] for i in range(n))]
+        # the anti-pattern veto: pairs it removes from the embedding order, whether that changes the hierarchy,
+        # and whether the vetoed relation is still transitive (the statement speaks of an ORDER: a list on which
+        # the veto leaves a non-transitive relation is outside the domain, counted and logged)
+        self.veto_pairs = [[i, j] for i in range(n) for j in range(n)
+                           if i != j and emb[i][j] and not emb[j][i] and anti[i][j]]
+        lt0 = [[i != j and emb[i][j] and not emb[j][i] for j in range(n)] for i in range(n)]
+        cover0 = sorted([i, j] for i in range(n) for j in range(n)
+                        if lt0[i][j] and not any(lt0[i][z] and lt0[z][j] for z in range(n)))
+        minimal0 = [j for j in range(n) if not any(lt0[i][j] for i in range(n))]
+        self.veto_changes_hierarchy = (cover0, minimal0) != (self.cover, self.minimal)
+        self.transitive = all(lt[i][k] for i in range(n) for j in range(n) if lt[i][j] for k in range(n) if lt[j][k])
         # the real matcher's answers on the same pairs (for the K2b scope decision)
         self.matcher_differs = False
         self.matcher_error = None
@@ -424,7 +536,7 @@ class ListInfo:
                             self.matcher_differs = True
         except Exception as e:  # noqa
             self.matcher_error = repr(e)
-        self.in_domain = self.connected and not self.mutual
+        self.in_domain = self.connected and not self.mutual and self.transitive
         keys = [(o.pattern_len, len(o.pattern), o.pattern.number_of_edges()) for o in self.objs]
         self.tie_pair = any(lt[i][j] and keys[i][:2] == keys[j][:2] for i in range(n) for j in range(n))
 
@@ -468,6 +580,8 @@ def make_cases(info, order, results_by_seed, envseed, direct, tags):
         meta = {"cfgs": None if info.is_default else info.dicts, "patterns": [d["pattern"] for d in info.dicts],
                 "order": list(order), "hashseeds": [s for s, _ in members], "direct": direct,
                 "has_cycle": info.has_cycle, "matcher_differs": info.matcher_differs,
+                "anti_patterns": [d.get("anti_pattern") for d in info.dicts] if info.has_anti else None,
+                "pairs_removed_by_the_anti_pattern_veto": [[inv[i], inv[j]] for i, j in info.veto_pairs],
                 "expected_links": [[inv[i], inv[j]] for i, j in info.cover],
                 "expected_roots": sorted(inv[i] for i in info.minimal),
                 "distinct_answers_among_seeds": len(groups)}
@@ -480,6 +594,14 @@ def make_cases(info, order, results_by_seed, envseed, direct, tags):
             t.add("matcher!=oracle")
         if info.tie_pair:
             t.add("comparable-pair-with-equal-(len,size)")
+        if info.has_anti:
+            t.add("has-anti-pattern")
+            if info.veto_pairs:
+                t.add("anti:veto-removes-a-would-be-descendant")
+            if info.veto_changes_hierarchy:
+                t.add("anti:veto-changes-links-or-roots")
+            if not info.transitive:
+                t.add("anti:vetoed-relation-not-transitive(out-of-domain)")
         if out[0] == "raised":
             t.add("impl-raised:" + out[1])
         if len(groups) > 1:
@@ -495,7 +617,14 @@ def load_corpus():
     """fixed regression inputs: corpus/C07/lists.json (every witness of DESIGN section 7 for C07, replays of
     the mutants), run first"""
     p = os.path.join(common.CORPUS_DIR, "C07", "lists.json")
-    return [e["patterns"] for e in json.load(open(p))]
+    return [corpus_dicts(e) for e in json.load(open(p))]
+
+
+def corpus_dicts(e):
+    """a corpus entry is either {"patterns": [...]} (anti-pattern free) or {"cfgs": [{"pattern": …, "anti_pattern": …} …]}"""
+    if "cfgs" in e:
+        return [dict(c, name=c.get("name", "g%d" % i)) for i, c in enumerate(e["cfgs"])]
+    return [{"name": "g%d" % i, "pattern": p} for i, p in enumerate(e["patterns"])]
 
 
 def plan(rng, tier):
@@ -509,11 +638,37 @@ def plan(rng, tier):
         o = list(range(nd))
         rng.shuffle(o)
         orders.append(o)
-    for pats in load_corpus():
-        dicts = [{"name": "g%d" % i, "pattern": p} for i, p in enumerate(pats)]
-        os_ = [list(range(len(pats))), list(reversed(range(len(pats))))]
+    for dicts in load_corpus():
+        os_ = [list(range(len(dicts))), list(reversed(range(len(dicts))))]
+        if any("anti_pattern" in d for d in dicts):
+            o = list(range(len(dicts)))
+            rng.shuffle(o)
+            os_.append(o)
         plans.append((dicts, os_, {"corpus"}))
     plans.append((None, orders, {"default-list"}))
+    # lists with anti-patterns: generated until enough of them are in the domain (connected, no mutual pair, vetoed
+    # relation still transitive) AND have a veto that removes a would-be descendant; everything generated on the way
+    # is run as well (out-of-domain ones are counted and logged, never decide the verdict)
+    want = 40 if tier == "quick" else 1500
+    got = 0
+    tries = 0
+    while got < want and tries < 6 * want:
+        tries += 1
+        dicts, tags = gen_anti_list(rng)
+        if len(dicts) < 2:
+            continue
+        try:
+            info = ListInfo(dicts)
+        except Exception:
+            continue
+        if info.in_domain and info.veto_pairs:
+            got += 1
+        os_ = [list(range(len(dicts)))]
+        for _ in range(2):
+            o = list(range(len(dicts)))
+            rng.shuffle(o)
+            os_.append(o)
+        plans.append((dicts, os_, set(tags) | {"generated"}, info))
     n_lists = 300 if tier == "quick" else 20000
     for k in range(n_lists):
         if k % 12 == 11:
@@ -566,9 +721,10 @@ def run(tier, seed):
     # ---- per-list information (parsing, oracle, real matcher relation), in-process -------------
     infos = []
     skipped = 0
-    for dicts, orders, tags in plans:
+    for pl in plans:
+        dicts, orders, tags = pl[:3]
         try:
-            info = ListInfo(dicts)
+            info = pl[3] if len(pl) > 3 else ListInfo(dicts)
         except Exception as e:  # generator produced something the parser refuses
             skipped += 1
             r.count("generator:pattern-refused-by-parser:" + type(e).__name__)
@@ -642,20 +798,37 @@ def run(tier, seed):
         "model_with_assertion_vs_pure_model_mismatches": pure_ne,
         "worker_wall_s": r.notes["worker_wall_s"],
     })
+    anti_infos = [i for i, _, _ in infos if i.has_anti and not i.is_default]
+    nontrans = [i for i in anti_infos if not i.transitive]
+    r.extra_cov.update({
+        "lists_with_anti_patterns": len(anti_infos),
+        "lists_with_anti_patterns_in_domain_with_a_veto_that_removes_a_would_be_descendant":
+            sum(1 for i in anti_infos if i.in_domain and i.veto_pairs),
+        "…_of_these_the_veto_changes_links_or_roots": sum(1 for i in anti_infos if i.in_domain and i.veto_changes_hierarchy),
+        "pairs_removed_by_a_veto_in_domain": sum(len(i.veto_pairs) for i in anti_infos if i.in_domain),
+        "lists_with_anti_patterns_out_of_domain_because_the_vetoed_relation_is_not_transitive": len(nontrans),
+        "…_logged_examples": [[[d["pattern"], d.get("anti_pattern")] for d in i.dicts] for i in nontrans[:5]],
+    })
     r.assumptions = [
         "Python's iteration order over the `parents` set (objects hashed by address) is an explicit permutation parameter of the model (C07.Env); exercised with fresh interpreters under PYTHONHASHSEED " + str(seeds),
         "the matcher is the frozen model Sub.mapSubgraphToGraph (validated against fgutils.algorithm.subgraph); on lists with cyclic patterns its answers may differ from true embedding (known finding K2/K2b)",
         "the true embedding order is computed by exhaustive enumeration in Lean (C07.embeds) and cross-checked against an independent enumeration in Python on every case",
-        "domain: lists of connected patterns without two mutually embeddable entries; generated lists are anti-pattern free, the default list carries its three anti-patterns",
+        "domain: lists of connected patterns without two mutually embeddable entries on which the relation 'embeds, not conversely, not vetoed by an anti-pattern of the "
+        "ancestor' is transitive (always so without anti-patterns; lists on which the veto leaves a non-transitive relation are run, counted and logged but never decide the verdict: "
+        "the statement speaks of an order); the default list (31 groups in the code) carries its three anti-patterns, which exclude no listed group; corpus and generated lists with "
+        "anti-patterns that DO exclude would-be descendants go beyond the quantifier text ('anti-pattern free') because the veto clause is part of the statement",
     ]
     rc = r.finish(
         level="proof",
-        rule="permutations of the default list and of generated lists of 3-8 connected patterns (random trees, rings, fused rings, aromatic rings, "
-             "sub-patterns of a common super-pattern, wildcard-blurred and case variants, ring-opened variants with equal node counts, templates), each built in fresh "
+        rule="permutations of the default list (31 groups) and of generated lists of 3-8 connected patterns (random trees, rings, fused rings, aromatic rings, "
+             "sub-patterns of a common super-pattern, wildcard-blurred and case variants, ring-opened variants with equal node counts, templates), plus lists WITH anti-patterns "
+             "(chemistry families such as CO/anti COC, C=O/anti OC=O, and generated lists in which an entry gets a piece of one of its descendants as anti-pattern; one or several "
+             "anti-patterns, given as list or plain string; generated until 40 (quick) / 1500 (thorough) in-domain lists with an effective veto exist), each built in fresh "
              "interpreters under several PYTHONHASHSEED values; one case per distinct answer; non-trivial = list with at least one covering pair, distinct by (patterns, order)",
-        checker_cmd="cd lean && lake build FGVerif.Proofs.C07 && lake env lean FGVerif/Audit/C07.lean",
+        checker_cmd="cd lean && lake build " + " ".join(PROOFS) + " && lake env lean FGVerif/Audit/C07.lean",
         explanation="theorems in lean/FGVerif/Proofs/C07.lean about Model/C07.lean (order-theoretic core: buildTree computes the Hasse diagram for every list order and every set-iteration order; "
-                    "default list instance by kernel decision on the regenerated table); model tied to fgutils.fgconfig by differential testing in subprocesses; executable spec C07.specCheck "
+                    "default list instance by kernel decision on the regenerated table; Proofs/C07Anti.lean: on the corpus lists whose anti-patterns really exclude would-be descendants the model's "
+                    "is_subgroup (veto branch included) equals the real is_subgroup by kernel decision on the regenerated table, and the Hasse theorem is instantiated for those on which the vetoed relation is an order); model tied to fgutils.fgconfig by differential testing in subprocesses; executable spec C07.specCheck "
                     "(Hasse diagram of the enumerated true embedding order) applied to every implementation output")
     if oracle_mismatch or hyps_fail:
         o = (oracle_mismatch or hyps_fail)[0]
@@ -688,7 +861,7 @@ def replay(path):
     outs = r.evaluate(cases, classify_known=classify_known_factory(common.load_known_findings()))
     for o in outs:
         o.case.meta.pop("_py_hasse", None)
-        print("replay: patterns=%s order=%s hashseeds=%s\n  impl=%s\n  model=%s\n  expected(hasse)=%s spec_impl=%s" % (
-            meta.get("patterns"), meta["order"], o.case.meta["hashseeds"], common.sx_of(o.impl_c),
+        print("replay: patterns=%s anti_patterns=%s order=%s hashseeds=%s\n  impl=%s\n  model=%s\n  expected(hasse)=%s spec_impl=%s" % (
+            meta.get("patterns"), o.case.meta.get("anti_patterns"), meta["order"], o.case.meta["hashseeds"], common.sx_of(o.impl_c),
             common.sx_of(o.model), common.sx_of(o.extra[0]) if o.extra else "?", o.spec_impl))
     return r.finish(level="proof", rule="replay", checker_cmd="", explanation="replay of " + path)
